@@ -997,4 +997,112 @@ theorem eo_ratio_constraint_bounds_eodds (rows : List Row) (h : List Rat) (ratio
   eodds_ratio_ge_of_constraint (eventOf .eo) rows h ratio eps _ _ (fun r => r.c == c0) hl hh hy hne
     (eo_selects c0 1 (Or.inr rfl)) (eo_selects c0 0 (Or.inl rfl)) hcov1 hcov0 hr hr1 he hm1 hm0 hg
 
+/-! ### non-vacuity and sharpness of the L3 theorems -/
+
+/-- ErrorRateParity: error rates a = 1/4, b = 3/4, overall 1/2 — slack exactly 1/4; both constants are attained
+    (to_overall difference 1/4 = eps, between_groups 1/2 = 2·eps) -/
+def xHe : List Rat := [1, 0, 1, 1, 0, 1, 0, 0]
+
+example : Hard xHe ∧ xHe.length = xRows.length ∧ (∀ r ∈ xRows, r.y = 0 ∨ r.y = 1) := by decide +kernel
+example : GammaLe (eventOf .erp) xRows 1 erpUtil xHe (1/4) ∧ ¬ GammaLe (eventOf .erp) xRows 1 erpUtil xHe (1/5) := by
+  decide +kernel
+theorem erp_constants_attained :
+    generated "accuracy_score_difference" .toOverall 1 (toFrame (fun r => r.c == none) xRows xHe) = some (some (.value (fin (1/4)))) ∧
+    generated "accuracy_score_difference" .between 1 (toFrame (fun r => r.c == none) xRows xHe) = some (some (.value (fin (2 * (1/4))))) ∧
+    generated "zero_one_loss_difference" .between 1 (toFrame (fun r => r.c == none) xRows xHe) = some (some (.value (fin (2 * (1/4))))) := by
+  decide +kernel
+/-- every hypothesis of `erp_constraint_bounds` at once -/
+example : ∃ D, generated "accuracy_score_difference" .toOverall 1 (toFrame (fun r => r.c == none) xRows xHe) = some (some (.value (fin D))) ∧
+      0 ≤ D ∧ D ≤ 1/4 :=
+  (erp_constraint_bounds xRows xHe (1/4) none (by decide) (by decide +kernel) (by decide +kernel) (by decide +kernel)
+    (by decide +kernel)).1.1
+/-- ErrorRateParity inside a control stratum (two strata; the constraint is per stratum) -/
+def xRowsE : List Row :=
+  [⟨1, "a", some "x"⟩, ⟨0, "a", some "x"⟩, ⟨1, "b", some "x"⟩, ⟨0, "b", some "x"⟩,
+   ⟨1, "a", some "y"⟩, ⟨0, "b", some "y"⟩]
+example : ∃ D, generated "zero_one_loss_difference" .between 1 (toFrame (fun r => r.c == some "x") xRowsE [1, 0, 0, 0, 1, 0]) = some (some (.value (fin D))) ∧
+      0 ≤ D ∧ D ≤ 2 * (1/4) :=
+  (erp_constraint_bounds xRowsE [1, 0, 0, 0, 1, 0] (1/4) (some "x") (by decide) (by decide +kernel) (by decide +kernel)
+    (by decide +kernel) (by decide +kernel)).2.2
+example : generated "zero_one_loss_difference" .between 1 (toFrame (fun r => r.c == some "x") xRowsE [1, 0, 0, 0, 1, 0])
+    = some (some (.value (fin (1/2)))) := by decide +kernel
+
+/-- ratio bounds, `r = 1/2`, `eps = 0`: positives of group a at rate 1/4 (4 rows), of b at rate 1 (2 rows), overall
+    `μ = 1/2`; the negatives follow the same pattern.  `r·(r·μ − eps)/(μ + eps) = 1/4`, `(r·μ − eps)/μ = 1/2` -/
+def xRowsR : List Row :=
+  [⟨1, "a", none⟩, ⟨1, "a", none⟩, ⟨1, "a", none⟩, ⟨1, "a", none⟩, ⟨1, "b", none⟩, ⟨1, "b", none⟩,
+   ⟨0, "a", none⟩, ⟨0, "a", none⟩, ⟨0, "a", none⟩, ⟨0, "a", none⟩, ⟨0, "b", none⟩, ⟨0, "b", none⟩]
+def xHR : List Rat := [1, 0, 0, 0, 1, 1, 1, 0, 0, 0, 1, 1]
+
+/-- **both TPR ratio constants are attained**, with `r < 1`: `eopp_ratio_ge_of_constraint` cannot be improved -/
+theorem eopp_ratio_bounds_sharp :
+    GammaLe (eventOf .tpr) xRowsR (1/2) defaultUtil xHR 0 ∧ mE (eventOf .tpr) xRowsR defaultUtil xHR "label=1" = 1/2 ∧
+    named "equal_opportunity_ratio" .between 1 (toFrame (fun r => r.c == none) xRowsR xHR)
+      = some (.value (fin ((1/2) * ((1/2) * (1/2) - 0) / (1/2 + 0)))) ∧
+    named "equal_opportunity_ratio" .toOverall 1 (toFrame (fun r => r.c == none) xRowsR xHR)
+      = some (.value (fin (((1/2) * (1/2) - 0) / (1/2)))) := by
+  decide +kernel
+
+theorem fpr_ratio_bounds_sharp :
+    GammaLe (eventOf .fpr) xRowsR (1/2) defaultUtil xHR 0 ∧ mE (eventOf .fpr) xRowsR defaultUtil xHR "label=0" = 1/2 ∧
+    generated "false_positive_rate_ratio" .between 1 (toFrame (fun r => r.c == none) xRowsR xHR)
+      = some (some (.value (fin ((1/2) * ((1/2) * (1/2) - 0) / (1/2 + 0))))) ∧
+    generated "false_positive_rate_ratio" .toOverall 1 (toFrame (fun r => r.c == none) xRowsR xHR)
+      = some (some (.value (fin (((1/2) * (1/2) - 0) / (1/2))))) := by
+  decide +kernel
+
+theorem eodds_ratio_bounds_sharp :
+    GammaLe (eventOf .eo) xRowsR (1/2) defaultUtil xHR 0 ∧
+    mE (eventOf .eo) xRowsR defaultUtil xHR "label=1" = 1/2 ∧ mE (eventOf .eo) xRowsR defaultUtil xHR "label=0" = 1/2 ∧
+    eodds "equalized_odds_ratio" .between .worstCase 1 (toFrame (fun r => r.c == none) xRowsR xHR)
+      = some (.value (fin (min ((1/2) * ((1/2) * (1/2) - 0) / (1/2 + 0)) ((1/2) * ((1/2) * (1/2) - 0) / (1/2 + 0))))) ∧
+    eodds "equalized_odds_ratio" .toOverall .worstCase 1 (toFrame (fun r => r.c == none) xRowsR xHR)
+      = some (.value (fin (min (((1/2) * (1/2) - 0) / (1/2)) (((1/2) * (1/2) - 0) / (1/2))))) := by
+  decide +kernel
+
+/-- … and with `r = 1`, `eps = 1/4` (group rates 1/4 and 3/4 around 1/2): between 1/3, to_overall 1/2 -/
+def xRowsQ : List Row :=
+  [⟨1, "a", none⟩, ⟨1, "a", none⟩, ⟨1, "a", none⟩, ⟨1, "a", none⟩, ⟨1, "b", none⟩, ⟨1, "b", none⟩, ⟨1, "b", none⟩, ⟨1, "b", none⟩,
+   ⟨0, "a", none⟩, ⟨0, "b", none⟩]
+def xHQ : List Rat := [1, 0, 0, 0, 1, 1, 1, 0, 0, 0]
+theorem eopp_ratio_bounds_sharp_eps :
+    GammaLe (eventOf .tpr) xRowsQ 1 defaultUtil xHQ (1/4) ∧ mE (eventOf .tpr) xRowsQ defaultUtil xHQ "label=1" = 1/2 ∧
+    named "equal_opportunity_ratio" .between 1 (toFrame (fun r => r.c == none) xRowsQ xHQ)
+      = some (.value (fin (1 * (1 * (1/2) - 1/4) / (1/2 + 1/4)))) ∧
+    named "equal_opportunity_ratio" .toOverall 1 (toFrame (fun r => r.c == none) xRowsQ xHQ)
+      = some (.value (fin ((1 * (1/2) - 1/4) / (1/2)))) := by
+  decide +kernel
+
+/-- every hypothesis of `tpr_ratio_constraint_bounds_eopp` / `eo_ratio_constraint_bounds_eodds` at once -/
+example : ∃ ρ, named "equal_opportunity_ratio" .between 1 (toFrame (fun r => r.c == none) xRowsR xHR) = some (.value (fin ρ)) ∧
+    (1/2) * ((1/2) * mE (eventOf .tpr) xRowsR defaultUtil xHR (stratumEvent none (MomentsSrc.labelEvent 1)) - 0)
+      / (mE (eventOf .tpr) xRowsR defaultUtil xHR (stratumEvent none (MomentsSrc.labelEvent 1)) + 0) ≤ ρ :=
+  (tpr_ratio_constraint_bounds_eopp xRowsR xHR (1/2) 0 none (by decide) (by decide +kernel) (by decide +kernel)
+    (by decide +kernel) (by decide +kernel) (by norm_num) (by norm_num) (le_refl _) (by decide +kernel) (by decide +kernel)).1
+example : ∃ ρ, eodds "equalized_odds_ratio" .toOverall .worstCase 1 (toFrame (fun r => r.c == none) xRowsR xHR) = some (.value (fin ρ)) :=
+  (eo_ratio_constraint_bounds_eodds xRowsR xHR (1/2) 0 none (by decide) (by decide +kernel) (by decide +kernel)
+    (by decide +kernel) (by decide +kernel) (by decide +kernel) (by norm_num) (by norm_num) (le_refl _)
+    (by decide +kernel) (by decide +kernel) (by decide +kernel)).2.imp fun _ h => h.1
+example : ∃ ρ, generated "false_positive_rate_ratio" .between 1 (toFrame (fun r => r.c == none) xRowsR xHR) = some (some (.value (fin ρ))) :=
+  (fpr_ratio_ge_of_constraint (eventOf .fpr) xRowsR xHR (1/2) 0 _ (fun r => r.c == none) (by decide) (by decide +kernel)
+    (by decide +kernel) (by decide +kernel) (fpr_selects none) (by decide +kernel) (by norm_num) (by norm_num) (le_refl _)
+    (by decide +kernel) (by decide +kernel)).1.imp fun _ h => h.1
+
+/-- EqualizedOdds inside a control stratum; the second control value contains a comma AND the text `,label=1` -/
+def xRowsS : List Row :=
+  [⟨1, "a", some "x"⟩, ⟨0, "a", some "x"⟩, ⟨1, "b", some "x"⟩, ⟨0, "b", some "x"⟩,
+   ⟨1, "a", some "x,label=1"⟩, ⟨0, "a", some "x,label=1"⟩, ⟨1, "b", some "x,label=1"⟩, ⟨0, "b", some "x,label=1"⟩]
+def xHS : List Rat := [1, 0, 0, 0, 1, 1, 1, 0]
+
+example : GammaLe (eventOf .eo) xRowsS 1 defaultUtil xHS (1/2) ∧ ¬ GammaLe (eventOf .eo) xRowsS 1 defaultUtil xHS (2/5) := by
+  decide +kernel
+example : ∃ D, eodds "equalized_odds_difference" .between .worstCase 1 (toFrame (fun r => r.c == some "x") xRowsS xHS) = some (.value (fin D)) ∧
+      0 ≤ D ∧ D ≤ 2 * (1/2) :=
+  (eo_constraint_bounds_eodds_in_stratum xRowsS xHS (1/2) "x" (by decide) (by decide +kernel) (by decide +kernel)
+    (by decide +kernel) (by decide +kernel) (by decide +kernel) (by decide +kernel)).2
+example : eodds "equalized_odds_difference" .between .worstCase 1 (toFrame (fun r => r.c == some "x") xRowsS xHS)
+      = some (.value (fin 1)) ∧
+    eodds "equalized_odds_difference" .toOverall .worstCase 1 (toFrame (fun r => r.c == some "x,label=1") xRowsS xHS)
+      = some (.value (fin (1/2))) := by decide +kernel
+
 end C06
